@@ -17,7 +17,7 @@ pub fn def() -> CheckDef {
         level: "exploration",
         assumptions: &["monotone simulated clock", "one error source per run (several simultaneous errors are covered by the lifecycle checks C02/C03)", "no storage errors are injected"],
         probes: &["probe.caught_at_act", "probe.caught_at_step", "probe.caught_at_outer_step", "probe.uncaught", "probe.non_matching_catch", "probe.catch_all", "probe.empty_catch", "probe.second_catch_matches", "probe.script_error", "probe.unknown_package"],
-        quick_cases: 3000,
+        quick_cases: 6000,
         no_shrink: &[],
     }
 }
